@@ -16,10 +16,19 @@
  * in a UTF-8 locale would share one object (and the normalisation flag of whichever came first). */
 static struct archive *ar_to, *ar_from;
 
+#include <sys/time.h>
+static void watchdog(int cpu_seconds)
+{
+	struct itimerval it; memset(&it, 0, sizeof it);
+	it.it_value.tv_sec = cpu_seconds;
+	setitimer(ITIMER_PROF, &it, NULL);
+	alarm(cpu_seconds ? cpu_seconds * 30 : 0);
+}
+
 static void u_begin(void) { ar_to = ar_from = NULL; }
 static void u_end(void)
 {
-	alarm(0);
+	watchdog(0);     /* nothing is armed during teardown and the exit-time leak check */
 	if (ar_to) archive_read_free(ar_to);
 	if (ar_from) archive_read_free(ar_from);
 	ar_to = ar_from = NULL;
@@ -32,6 +41,46 @@ static char *exact(const unsigned char *b, size_t n)
 	if (p == NULL) p = malloc(1);
 	if (n) memcpy(p, b, n);
 	return p;
+}
+
+/* Operand syntax: "-" empty | hex | "@N" = N pattern bytes 'a'+(i%26) | "R<k>:<unithex>:<tailhex|->" = unit repeated
+ * k times followed by tail (long border inputs stay short on the protocol line; the driver expands the same way). */
+static unsigned char *operand(const char *s, size_t *n)
+{
+	if (s[0] == '@') {
+		size_t l = strtoull(s + 1, NULL, 10); unsigned char *b = malloc(l ? l : 1);
+		for (size_t i = 0; i < l; i++) b[i] = (unsigned char)('a' + i % 26);
+		*n = l; return b;
+	}
+	if (s[0] == 'R') {
+		char *c1 = strchr(s, ':'), *c2 = c1 ? strchr(c1 + 1, ':') : NULL;
+		if (c2 == NULL) { *n = 0; return malloc(1); }
+		size_t k = strtoull(s + 1, NULL, 10), ul, tl;
+		char *us = strndup(c1 + 1, (size_t)(c2 - c1 - 1));
+		unsigned char *u = vh_unhex(us, &ul), *tb = vh_unhex(c2 + 1, &tl);
+		unsigned char *b = malloc(k * ul + tl + 1);
+		for (size_t i = 0; i < k; i++) memcpy(b + i * ul, u, ul);
+		memcpy(b + k * ul, tb, tl);
+		*n = k * ul + tl; free(us); free(u); free(tb); return b;
+	}
+	return vh_unhex(s, n);
+}
+
+/* bytes as hex, or as "#<n>:<fnv1a-64>" when there are more than 2048 of them */
+static void puthexd(const void *p, size_t n)
+{
+	if (n <= 2048) { vh_puthex(p, n); return; }
+	printf("#%zu:%016llx", n, (unsigned long long)vh_fnv(p, n));
+}
+
+/* a destination that already holds `n` pattern bytes, grown by libarchive's own policy */
+static void prefill(struct archive_string *as, size_t n)
+{
+	size_t l; char word[32]; snprintf(word, sizeof word, "@%zu", n);
+	unsigned char *b = operand(word, &l);
+	archive_string_init(as);
+	if (n) archive_strncat(as, b, l);
+	free(b);
 }
 
 static void pr_dec(int r, uint32_t uc)
@@ -77,14 +126,14 @@ static void pr_as(int r, struct archive_string *as, int ts)
 	int nul = as->s != NULL && as->length + ts <= as->buffer_length && as->s[as->length] == 0 &&
 	    (ts == 1 || as->s[as->length + 1] == 0);
 	printf("r=%d len=%zu cap=%zu out=", r, as->length, as->buffer_length);
-	vh_puthex(as->s, as->length);
+	puthexd(as->s, as->length);
 	printf(" nul=%s\n", nul ? "ok" : "bad");
 }
 
 static void pr_ms_bytes(const char *k, int r, const char *p)
 {
 	printf("%s=%d:", k, r);
-	if (p == NULL) printf("null"); else vh_puthex(p, strlen(p));
+	if (p == NULL) printf("null"); else puthexd(p, strlen(p));
 }
 
 static struct archive_string_conv *get_sc(const char *dir, const char *cs)
@@ -99,18 +148,20 @@ static struct archive_string_conv *get_sc(const char *dir, const char *cs)
 
 static void u_op(char *line)
 {
-	/* a conversion loop that stops making progress must not hang the run: the child is killed
-	 * by SIGALRM and the parent reports `!crash signal=14` for this operation */
-	alarm(strncmp(line, "enum", 4) == 0 ? 900 : strncmp(line, "big8", 4) == 0 ? 60 : 3);
+	/* A conversion loop that stops making progress must not hang the run.  The watchdog counts the CPU
+	 * time of this process (ITIMER_PROF), so a loaded machine cannot trip it: an endless loop burns CPU
+	 * and is killed by SIGPROF (`!crash signal=27`), a starved process is not.  A generous wall-clock
+	 * alarm stays as a backstop for a blocked process. */
+	watchdog(strncmp(line, "enum", 4) == 0 ? 1800 : strncmp(line, "big8", 4) == 0 ? 120 : 4);
 	char *w[8]; int n = vh_split(line, w, 8);
 	size_t len; dec_fn df;
 	if (n == 2 && (df = dec_by_name(w[0])) != NULL) {
-		unsigned char *b = vh_unhex(w[1], &len); char *s = exact(b, len);
+		unsigned char *b = operand(w[1], &len); char *s = exact(b, len);
 		uint32_t uc = SENTINEL; int r = df(&uc, s, len);
 		pr_dec(r, uc); putchar('\n'); free(s); free(b);
 	} else if (n == 3 && !strcmp(w[0], "big8")) {
 		/* a block of `nn` bytes (zero filled after the given prefix): lengths at and above 2^31 */
-		unsigned char *b = vh_unhex(w[1], &len); size_t nn = strtoull(w[2], NULL, 10);
+		unsigned char *b = operand(w[1], &len); size_t nn = strtoull(w[2], NULL, 10);
 		if (nn < len) { printf("bad-op\n"); free(b); return; }
 		char *s = calloc(nn ? nn : 1, 1);
 		if (s == NULL) { printf("nomem\n"); free(b); return; }
@@ -127,17 +178,25 @@ static void u_op(char *line)
 		size_t r = !strcmp(w[0], "e8") ? unicode_to_utf8(p, rem, uc) :
 		    !strcmp(w[0], "e16be") ? unicode_to_utf16be(p, rem, uc) : unicode_to_utf16le(p, rem, uc);
 		printf("w=%zu out=", r); vh_puthex(p, r <= rem ? r : 0); putchar('\n'); free(p);
-	} else if (n == 2 && !strcmp(w[0], "u8u8")) {
-		unsigned char *b = vh_unhex(w[1], &len); char *s = exact(b, len);
-		struct archive_string as; archive_string_init(&as);
+	} else if ((n == 2 || n == 3) && !strcmp(w[0], "u8u8")) {
+		unsigned char *b = operand(w[1], &len); char *s = exact(b, len);
+		struct archive_string as; prefill(&as, n == 3 ? strtoull(w[2], NULL, 10) : 0);
 		int r = strncat_from_utf8_to_utf8(&as, s, len, NULL);
-		printf("r=%d out=", r); vh_puthex(as.s, as.length); putchar('\n');
+		printf("r=%d out=", r); puthexd(as.s, as.length); putchar('\n');
+		archive_string_free(&as); free(s); free(b);
+	} else if ((n == 2 || n == 3) && !strcmp(w[0], "la2")) {
+		/* strncat_from_utf8_libarchive2 (the "compat-2x" UTF-8 reader): _utf8_to_unicode + wcrtomb with its own
+		 * re-allocation loop */
+		unsigned char *b = operand(w[1], &len); char *s = exact(b, len);
+		struct archive_string as; prefill(&as, n == 3 ? strtoull(w[2], NULL, 10) : 0);
+		int r = strncat_from_utf8_libarchive2(&as, s, len, NULL);
+		printf("r=%d out=", r); puthexd(as.s, as.length); putchar('\n');
 		archive_string_free(&as); free(s); free(b);
 	} else if (n == 5 && !strcmp(w[0], "app")) {
 		struct archive_string_conv sc; memset(&sc, 0, sizeof sc);
 		sc.flag = (int)strtoul(w[1], NULL, 10);
 		size_t cap = strtoul(w[2], NULL, 10), npre;
-		unsigned char *pre = vh_unhex(w[3], &npre), *b = vh_unhex(w[4], &len);
+		unsigned char *pre = operand(w[3], &npre), *b = operand(w[4], &len);
 		char *s = exact(b, len); struct archive_string as;
 		if (!mk_as(&as, cap, pre, npre)) printf("bad-op\n");
 		else {
@@ -149,7 +208,7 @@ static void u_op(char *line)
 		archive_string_free(&as); free(s); free(b); free(pre);
 	} else if (n == 5 && (!strcmp(w[0], "bto") || !strcmp(w[0], "bfrom"))) {
 		int be = atoi(w[1]); size_t cap = strtoul(w[2], NULL, 10), npre;
-		unsigned char *pre = vh_unhex(w[3], &npre), *b = vh_unhex(w[4], &len);
+		unsigned char *pre = operand(w[3], &npre), *b = operand(w[4], &len);
 		char *s = exact(b, len); struct archive_string as;
 		if (!mk_as(&as, cap, pre, npre)) printf("bad-op\n");
 		else if (!strcmp(w[0], "bto")) {
@@ -158,36 +217,56 @@ static void u_op(char *line)
 			int r = best_effort_strncat_from_utf16(&as, s, len, NULL, be); pr_as(r, &as, 1);
 		}
 		archive_string_free(&as); free(s); free(b); free(pre);
-	} else if (n == 4 && !strcmp(w[0], "conv")) {
+	} else if ((n == 4 || n == 5) && !strcmp(w[0], "conv")) {
 		/* public conversion object + archive_strncpy_l / archive_strncat_l */
 		struct archive_string_conv *sc = get_sc(w[1], w[2]);
-		unsigned char *b = vh_unhex(w[3], &len); char *s = exact(b, len);
+		unsigned char *b = operand(w[3], &len); char *s = exact(b, len);
 		struct archive_string as; archive_string_init(&as);
 		if (sc == NULL) printf("no-conv\n");
-		else {
+		else if (n == 5) {
+			/* appended to a destination that already holds text */
+			prefill(&as, strtoull(w[4], NULL, 10));
+			int r = archive_strncat_l(&as, s, len, sc);
+			printf("r=%d out=", r); puthexd(as.s, as.length); putchar('\n');
+		} else {
 			archive_strcpy(&as, "x");
 			int r = archive_strncpy_l(&as, s, len, sc);
-			printf("r=%d out=", r); vh_puthex(as.s, as.length); putchar('\n');
+			printf("r=%d out=", r); puthexd(as.s, as.length); putchar('\n');
 		}
 		archive_string_free(&as); free(s); free(b);
 	} else if (n == 3 && !strcmp(w[0], "rt")) {
 		/* TEST, not model: current locale (UTF-8) -> charset -> back, through iconv */
 		struct archive_string_conv *to = get_sc("to", w[1]), *from = get_sc("from", w[1]);
-		unsigned char *b = vh_unhex(w[2], &len); char *s = exact(b, len);
+		unsigned char *b = operand(w[2], &len); char *s = exact(b, len);
 		struct archive_string mid, back; archive_string_init(&mid); archive_string_init(&back);
 		if (to == NULL || from == NULL) printf("no-conv\n");
 		else {
 			int r1 = archive_strncpy_l(&mid, s, len, to);
 			int r2 = archive_strncpy_l(&back, mid.s, mid.length, from);
-			printf("r1=%d mid=", r1); vh_puthex(mid.s, mid.length);
-			printf(" r2=%d back=", r2); vh_puthex(back.s, back.length); putchar('\n');
+			printf("r1=%d mid=", r1); puthexd(mid.s, mid.length);
+			printf(" r2=%d back=", r2); puthexd(back.s, back.length); putchar('\n');
 		}
 		archive_string_free(&mid); archive_string_free(&back); free(s); free(b);
-	} else if (n == 3 && !strcmp(w[0], "ms")) {
-		/* archive_mstring views in the C.UTF-8 locale; wcs operands are UTF-32BE hex */
+	} else if ((n == 3 || n == 4) && (!strcmp(w[0], "ms") || !strcmp(w[0], "msl"))) {
+		/* archive_mstring views in the C.UTF-8 locale; wcs operands are UTF-32BE hex.
+		 * ms <mbs|utf8|wcs> <src> [prior]   msl <charset> <src> [prior] (archive_mstring_copy_mbs_len_l)
+		 * prior: the object first held (and showed all views of) that many pattern bytes, so its
+		 * internal strings are not fresh but grown by an earlier value. */
 		struct archive_mstring ms; memset(&ms, 0, sizeof ms);
-		unsigned char *b = vh_unhex(w[2], &len);
-		if (!strcmp(w[1], "mbs")) {
+		const char *p = NULL; const wchar_t *wp = NULL; int r;
+		if (n == 4) {
+			struct archive_string pre; prefill(&pre, strtoull(w[3], NULL, 10));
+			archive_mstring_copy_mbs_len(&ms, pre.s ? pre.s : "", pre.length);
+			archive_mstring_get_mbs(NULL, &ms, &p); archive_mstring_get_utf8(NULL, &ms, &p);
+			archive_mstring_get_wcs(NULL, &ms, &wp);
+			archive_string_free(&pre); p = NULL; wp = NULL;
+		}
+		unsigned char *b = operand(w[2], &len);
+		if (!strcmp(w[0], "msl")) {
+			struct archive_string_conv *sc = get_sc("from", w[1]);
+			char *s = exact(b, len); r = archive_mstring_copy_mbs_len_l(&ms, s, len, sc); free(s);
+			printf("c=%d ", r);
+		} else if (!strcmp(w[1], "mbs")) {
 			char *s = exact(b, len); archive_mstring_copy_mbs_len(&ms, s, len); free(s);
 		} else if (!strcmp(w[1], "utf8")) {
 			char *s = malloc(len + 1); memcpy(s, b, len); s[len] = 0;
@@ -198,14 +277,22 @@ static void u_op(char *line)
 				ws[i] = (wchar_t)(((uint32_t)b[4*i] << 24) | (b[4*i+1] << 16) | (b[4*i+2] << 8) | b[4*i+3]);
 			archive_mstring_copy_wcs_len(&ms, ws, nw); free(ws);
 		}
-		const char *p = NULL; const wchar_t *wp = NULL; int r;
 		r = archive_mstring_get_mbs(NULL, &ms, &p); pr_ms_bytes("m", r, p); putchar(' ');
 		p = NULL; r = archive_mstring_get_utf8(NULL, &ms, &p); pr_ms_bytes("u", r, p); putchar(' ');
 		r = archive_mstring_get_wcs(NULL, &ms, &wp);
 		printf("w=%d:", r);
 		if (wp == NULL) printf("null");
 		else if (wp[0] == 0) printf("-");
-		else for (size_t i = 0; wp[i]; i++) printf("%s%x", i ? "," : "", (unsigned)wp[i]);
+		else {
+			size_t nw = wcslen(wp);
+			if (nw <= 512) for (size_t i = 0; i < nw; i++) printf("%s%x", i ? "," : "", (unsigned)wp[i]);
+			else {
+				unsigned char *ser = malloc(nw * 4);
+				for (size_t i = 0; i < nw; i++) { uint32_t v = (uint32_t)wp[i];
+					ser[4*i] = v >> 24; ser[4*i+1] = v >> 16; ser[4*i+2] = v >> 8; ser[4*i+3] = v; }
+				printf("#%zu:%016llx", nw, (unsigned long long)vh_fnv(ser, nw * 4)); free(ser);
+			}
+		}
 		putchar('\n');
 		archive_mstring_clean(&ms); free(b);
 	} else if (n == 3 && !strcmp(w[0], "enum")) {
@@ -229,7 +316,7 @@ static void u_op(char *line)
 		printf("digest=%016llx\n", (unsigned long long)dg);
 	} else if (n == 5 && !strcmp(w[0], "enumb")) {
 		/* every string of k bytes over the given alphabet with rank in [lo, hi), all five decoders */
-		size_t m; unsigned char *al = vh_unhex(w[1], &m); size_t k = strtoul(w[2], NULL, 10);
+		size_t m; unsigned char *al = operand(w[1], &m); size_t k = strtoul(w[2], NULL, 10);
 		uint64_t lo = strtoull(w[3], NULL, 10), hi = strtoull(w[4], NULL, 10);
 		if (m == 0 || k == 0 || k > 8) { printf("bad-op\n"); free(al); return; }
 		char *s = malloc(k); dg = 14695981039346656037ULL;
